@@ -2,6 +2,7 @@
     Pipeline::process (src/operator.rs, src/operator/sort.rs, src/lib.rs). *)
 From Coq Require Import List ZArith NArith Bool Floats.SpecFloat.
 From AG Require Import Str F64 Value Json Expr Ops.
+From AG Require Generated.
 Import ListNotations.
 Open Scope string_scope.
 Open Scope list_scope.
@@ -309,6 +310,17 @@ Definition stage_ok (s : stage) : bool :=
   | SUnmodelled => true
   end.
 
+(** the count of [limit] as typecheck.rs sees it: an optional f64 from the
+    grammar's [double]; absent means DEFAULT_LIMIT *)
+Definition typecheck_limit (count : option f64) : option Z :=
+  match count with
+  | None => Some Generated.default_limit
+  | Some f =>
+      if negb (f_is_finite f) then None                       (* fract() is NaN *)
+      else if (ftrunc_Z f =? 0) || negb (f_is_integral f) then None
+      else Some (f_to_i64_sat f)                              (* limit as i64 *)
+  end.
+
 (** ** Pipeline::process *)
 Inductive output : Type :=
 | ORows (rows : list record)
@@ -333,11 +345,14 @@ Fixpoint proc_preagg (ops : list opstate) (r : record)
       end
   end.
 
-Record pstate := mkP {
-  p_ops : list opstate; p_sent : list record (* reversed *); p_err : nat; p_bad : res unit }.
+(** sticky flags: did any row panic / leave the modelled fragment? *)
+Record bad := mkBad { b_panic : bool; b_unm : bool }.
+Definition no_bad : bad := mkBad false false.
+Definition bad_or (a b : bad) : bad := mkBad (b_panic a || b_panic b) (b_unm a || b_unm b).
+Definition is_bad (b : bad) : bool := b_panic b || b_unm b.
 
-Definition or_bad (a b : res unit) : res unit :=
-  match a with Ok _ => b | _ => a end.
+Record pstate := mkP {
+  p_ops : list opstate; p_sent : list record (* reversed *); p_err : nat; p_bad : bad }.
 
 (** a row whose processing panics or leaves the modelled fragment is dropped
     and remembered in [p_bad]; the run as a whole is then reported as such *)
@@ -346,8 +361,8 @@ Definition feed (st : pstate) (r : record) : pstate :=
   match res with
   | Ok (Some r') => mkP ops' (r' :: p_sent st) (p_err st + n) (p_bad st)
   | Ok None | Err => mkP ops' (p_sent st) (p_err st + n) (p_bad st)
-  | Panic => mkP ops' (p_sent st) (p_err st + n) (or_bad (p_bad st) Panic)
-  | Unm => mkP ops' (p_sent st) (p_err st + n) (or_bad (p_bad st) Unm)
+  | Panic => mkP ops' (p_sent st) (p_err st + n) (bad_or (p_bad st) (mkBad true false))
+  | Unm => mkP ops' (p_sent st) (p_err st + n) (bad_or (p_bad st) (mkBad false true))
   end.
 
 (** the drain loop: remove(0), push the drained rows through the remaining ops *)
@@ -364,8 +379,28 @@ Fixpoint drain_loop (fuel : nat) (st : pstate) : pstate :=
   end.
 
 Definition run_preagg (ops : list opstate) (recs : list record) : pstate :=
-  let st := fold_left feed recs (mkP ops [] O (Ok tt)) in
+  let st := fold_left feed recs (mkP ops [] O no_bad) in
   drain_loop (S (length ops)) st.
+
+(** *** the stage-by-stage reference semantics of one operator instance *)
+Fixpoint op_run (o : opstate) (recs : list record) : opstate * list record * nat * bad :=
+  match recs with
+  | [] => (o, [], O, no_bad)
+  | r :: rest =>
+      let '(o1, out) := op_step o r in
+      let '(o2, outs, n, b) := op_run o1 rest in
+      match out with
+      | Ok (Some r') => (o2, r' :: outs, n, b)
+      | Ok None => (o2, outs, n, b)
+      | Err => (o2, outs, S n, b)
+      | Panic => (o2, outs, n, bad_or (mkBad true false) b)
+      | Unm => (o2, outs, n, bad_or (mkBad false true) b)
+      end
+  end.
+
+(** everything the operator lets through for the complete input, drained *)
+Definition stage_out (o : opstate) (recs : list record) : list record :=
+  let '(o', outs, _, _) := op_run o recs in outs ++ op_drain o'.
 
 (** [run_agg_pipeline] *)
 Fixpoint run_agg_rest (t : table) (rest : list aggop) : res table :=
@@ -382,8 +417,9 @@ Definition run_pipeline (filter_ok : str -> bool) (stages : list stage) (lines :
   let '(pre, post) := compile stages in
   let recs := map (fun l => mkRec [] l) (filter filter_ok lines) in
   let st := run_preagg pre recs in
-  match p_bad st with
-  | Ok _ =>
+  if b_panic (p_bad st) then mkRun Panic (p_err st)
+  else if b_unm (p_bad st) then mkRun Unm (p_err st)
+  else
       let sent := rev (p_sent st) in
       match post with
       | [] => mkRun (Ok (ORows sent)) (p_err st)
@@ -396,7 +432,4 @@ Definition run_pipeline (filter_ok : str -> bool) (stages : list stage) (lines :
             do t' <- run_agg_rest t rest;
             Ok (OTable t') in
           mkRun r (p_err st)
-      end
-  | Panic => mkRun Panic (p_err st)
-  | _ => mkRun Unm (p_err st)
-  end.
+      end.
